@@ -13,7 +13,7 @@ real WishboneCSRBridge. CSR side:
 import random
 
 from vmon import env  # noqa: F401
-from vmon.simkit import Top, Mon, simulate, bits, biased_bits, reset_plan, drive_reset
+from vmon.simkit import Top, Mon, simulate, bits, biased_bits, reset_plan, drive_reset, new_map
 
 from amaranth_soc import csr
 from amaranth_soc.csr import action
@@ -80,12 +80,12 @@ def run_case(case):
         regs = [r for r in regs if "start" in r]
     else:
         csr_bus = csr.Interface(addr_width=caw, data_width=cdw, path=("csr",))
-        csr_bus.memory_map = MemoryMap(addr_width=caw, data_width=cdw)
+        csr_bus.memory_map = new_map(addr_width=caw, data_width=cdw)
     from vmon.simkit import decoy
 
     def twin():
         cb = csr.Interface(addr_width=caw, data_width=cdw, path=("twin",))
-        cb.memory_map = MemoryMap(addr_width=caw, data_width=cdw)
+        cb.memory_map = new_map(addr_width=caw, data_width=cdw)
         return WishboneCSRBridge(cb, data_width=wdw)
 
     decoy(rng, twin)
